@@ -1,8 +1,10 @@
 package main
 
 import (
+	"context"
 	"encoding/json"
 	"fmt"
+	"github.com/couchbase/gocbcore/v10/memd"
 	"sort"
 	"strings"
 	"time"
@@ -103,6 +105,7 @@ func init() {
 					out = append(out, Instance{Scenario: "c10_cb", Params: mustJSON(CBParams{Initial: n, Event: ev, Perms: q}), Bound: 0, Shards: 8})
 				}
 			}
+			out = append(out, Instance{Scenario: "c10_cb", Params: mustJSON(CBParams{Initial: 2, Event: "ghost", Perms: 1}), Bound: 0, Shards: 2, Note: "the index lists an instance whose document does not exist (died during registration)"})
 			out = append(out, Instance{Scenario: "c10_cb", Params: mustJSON(CBParams{Initial: 3, Event: "hblost", Perms: 1}), Bound: 0, Shards: 4, Note: "the heart-beats of one running instance no longer reach the bucket"})
 			for tm := 1; tm <= 2; tm++ {
 				for _, ev := range []string{"join", "die"} {
@@ -238,6 +241,22 @@ func cbMain(p CBParams) {
 	case "join":
 		join()
 		hist = append(hist, "join")
+	case "ghost":
+		// an instance that died during its registration: the shared index lists it, its own document was never
+		// written. The others must get over it (drop it from the index) and keep their numbering.
+		cfg := o.config()
+		cl := couchbase.NewClient(cfg)
+		if err := cl.Connect(); err != nil {
+			panic(err)
+		}
+		md := cfg.GetCouchbaseMetadata()
+		ghost := helpers.Prefix + cfg.Dcp.Group.Name + ":instance:00000000-dead-4000-8000-000000000000"
+		ctx, cancel := context.WithTimeout(context.Background(), 10*time.Second)
+		if err := couchbase.CreatePath(ctx, cl.GetMetaAgent(), md.Scope, md.Collection, []byte(helpers.Prefix+cfg.Dcp.Group.Name+":instance:all"), []byte(ghost), []byte(fmt.Sprint(vrt.NowNanos())), memd.SubdocDocFlagMkDoc); err != nil {
+			vrt.Failf("harness: cannot plant the ghost entry: %v", err)
+		}
+		cancel()
+		hist = append(hist, "ghost-entry-in-the-index")
 	case "hblost":
 		l := live()
 		v := l[vrt.Choose(len(l), true, "victim")]
